@@ -65,6 +65,24 @@ let handle line = match parse line with
       let m = from_qudit_location (nat_of_int n) (nat_of_int r) (nats loc) in
       let e = perm_matrix (nat_of_int n) (nat_of_int r) (complete_perm (nat_of_int n) (nats loc)) in
       L [vzmat m; vbool (m = e)]
+  | [A "mmloc"; I n; es; I k] ->
+      let n' = nat_of_int n in
+      (match mm_graph n' (pairs es) with
+       | Ok g -> (match mm_get_locations n' (pairs es) (nat_of_int k) with
+                  | Ok ls -> L [I (List.length g); L (List.map vnats ls)]
+                  | r -> vres (fun _ -> A "?") r)
+       | r -> vres (fun _ -> A "?") r)
+  | [A "qpu"; I n; es; remote] ->
+      (match mk_graph (pairs es) (Some (nat_of_int n)) with
+       | Ok g ->
+         (match qpu_to_qudit g (pairs remote) with
+          | None -> A "FUEL"
+          | Some qpus ->
+            let coded = qudit_to_qpu_coded qpus and fixed = qudit_to_qpu_fixed (nat_of_int n) qpus in
+            let nq = nat_of_int (List.length qpus) in
+            let conn q2q = L (List.map (fun l -> vnats (sort l)) (qpu_connectivity nq q2q (pairs remote))) in
+            L [L (List.map (fun q -> vnats (sort q)) qpus); vnats coded; conn coded; vnats fixed; conn fixed])
+       | r -> vres (fun _ -> A "?") r)
   | _ -> A "BADCMD"
 
 let () =
